@@ -27,6 +27,7 @@ declare -A ALSO=(
   [C02-bindargs-schema-order-index]="C17"
   [C08-query-exec-shared-payload-buffer]="C13"
   [C06-deferred-closure-uses-outer-ctx]="C13"
+  [C07-oftype-writes-into-shared-schema]="C16"
 )
 echo "# Seeded changes vs. the checks ($tier tier, $(date -u +%FT%TZ), /repo $(git -C /repo log --format=%h -1))" > $out
 echo >> $out
